@@ -23,7 +23,7 @@ META = {
                    'covers every filter of those lengths). 2-tuples must act on both axes.',
     'bounds': {'quick': {'pairs (col,row)': PAIRS_Q, 'modes': MODES, 'shapes': SHAPES_Q, 'J': [1, 2], 'symbolic taps (Lc,Lr)': [(2, 4), (4, 2), (6, 2)]},
                'thorough': {'pairs': 'all ordered pairs of 7 wavelets', 'modes': MODES, 'shapes': '10 shapes incl. odd/non-square', 'J': [1, 2, 3]}},
-    'outside': 'sizes and pairs beyond the lists; periodization configurations in which a level is shorter than its filter (known defect F1, decided under C01/C02/C10); float rounding inside kernels',
+    'outside': 'sizes and pairs beyond the lists; float rounding inside kernels',
     'assumptions': ['real-arithmetic semantics', 'PyWavelets per-axis wavelets are the reference for "column = vertical axis"'],
 }
 
@@ -42,8 +42,6 @@ def configs(tier, seed):
                 for k, (h, w) in enumerate(shapes):
                     if tier == 'thorough' and (k + J + seed + len(wc)) % 3:
                         continue
-                    if mode == 'periodization' and (D.per_short(h, D.filt_len(wc), J) or D.per_short(w, D.filt_len(wr), J)):
-                        continue    # region of the known periodization defect F1 (decided under C01/C02/C10)
                     for d in ('fwd', 'inv'):
                         out.append(dict(kind='tuple4', wc=wc, wr=wr, mode=mode, J=J, H=h, W=w, dir=d, B=1, C=1))
     # None highpass levels with distinct row/column filters (J=1: no un-pad ambiguity; J=2 in periodization with even sizes)
